@@ -1543,10 +1543,16 @@ def _instantiate(h: "_Helper", env: Dict[str, ast.AST], caller_names: Set[str],
     env = dict(env)
     pre: List[ast.stmt] = []
     for p_ in list(env):
-        if p_ in stored:
-            pre.append(ast.Assign(targets=[ast.Name(id=p_ + suffix, ctx=ast.Store())],
+        uses = sum(1 for s_ in body for x in ast.walk(s_)
+                   if isinstance(x, ast.Name) and x.id == p_ and isinstance(x.ctx, ast.Load))
+        if p_ in stored or (uses > 1 and any(isinstance(x, ast.Call)
+                                             for x in ast.walk(env[p_]))):
+            # assigned parameters, and call results that are used more than once, get a local
+            nm_ = p_ + suffix if (p_ in stored or p_ in caller_names) else p_
+            pre.append(ast.Assign(targets=[ast.Name(id=nm_, ctx=ast.Store())],
                                   value=copy.deepcopy(env[p_])))
-            env[p_] = ast.Name(id=p_ + suffix, ctx=ast.Load())
+            env[p_] = ast.Name(id=nm_, ctx=ast.Load())
+            caller_names.add(nm_)
     force = force or {}
     comp_only = {c_ for c_ in _comp_only_names(body) if c_ not in env}
     multi = id(h.node) in _MULTI
